@@ -349,31 +349,12 @@ func runC01(c *core.Ctx) {
 		c.Analysed(core.FuncName(m))
 		key := "someDef." + name
 		bad := ""
-		// every read of ref and every dynamic call is on the present edge
-		core.Instrs(m, func(ins ssa.Instruction) {
-			touches := false
-			switch x := ins.(type) {
-			case *ssa.FieldAddr:
-				if core.FieldKey(x) == "someDef.ref" {
-					touches = true
-				}
-			case *ssa.Field:
-				if core.FieldKey(x) == "someDef.ref" {
-					touches = true
-				}
-			case *ssa.Call:
-				if core.Callee(&x.Call) == nil && !x.Call.IsInvoke() {
-					if _, isB := x.Call.Value.(*ssa.Builtin); !isB {
-						touches = true
-					}
-				}
+		// every use of the wrapped value (beyond copying/boxing it) and every dynamic call is on the present edge
+		for _, ins := range c01refConsumers(m) {
+			if pres, _ := c01edge(ins.Block(), m); !pres {
+				bad = "the wrapped value is used / the callback called at " + p.InstrPos(ins) + " without being on the present edge of the absence test"
 			}
-			if touches {
-				if pres, _ := c01edge(ins.Block(), m); !pres {
-					bad = "the wrapped value is used / the callback called at " + p.InstrPos(ins) + " without being on the present edge of the absence test"
-				}
-			}
-		})
+		}
 		// absent edge result
 		var got []string
 		nAbsent := 0
@@ -549,6 +530,7 @@ func runC01(c *core.Ctx) {
 			subjects = append(subjects, f)
 		}
 	}
+	subjects = append(subjects, core.HelpersOf(p, subjects)...)
 	for _, f := range subjects {
 		c.Analysed(core.FuncName(f))
 		core.Instrs(f, func(ins ssa.Instruction) {
@@ -568,25 +550,48 @@ func runC01(c *core.Ctx) {
 					}
 				}
 				// reflect round trip: reflect.ValueOf(v:T).Interface().(T)
-				if !ok {
-					if call, isC := core.Resolve(x.X).(*ssa.Call); isC && core.StdCallee(&call.Call) == "reflect.(Value).Interface" {
-						if vo, isVO := core.Resolve(call.Call.Args[0]).(*ssa.Call); isVO && core.StdCallee(&vo.Call) == "reflect.ValueOf" {
-							src := core.Unwrap(vo.Call.Args[0])
-							if types.Identical(src.Type(), x.AssertedType) {
-								ok = true
+			if !ok {
+				// isValueOf: v is reflect.ValueOf(<value of static type want>), directly or as the argument
+				// bound to a helper's parameter at every call site (want translated through the instantiation)
+				var isValueOf func(v ssa.Value, want types.Type, d int) bool
+				isValueOf = func(v ssa.Value, want types.Type, d int) bool {
+					v = core.Resolve(v)
+					if vo, isVO := v.(*ssa.Call); isVO && core.StdCallee(&vo.Call) == "reflect.ValueOf" {
+						return types.Identical(core.Unwrap(vo.Call.Args[0]).Type(), want)
+					}
+					if prm, isP := v.(*ssa.Parameter); isP && d < 4 {
+						acts := core.ParamActuals(p, prm)
+						if len(acts) == 0 {
+							return false
+						}
+						for _, a := range acts {
+							w := want
+							if tp, isTP := want.(*types.TypeParam); isTP && a.Callee != nil && tp.Index() < len(a.Callee.TypeArgs()) {
+								w = a.Callee.TypeArgs()[tp.Index()]
+							}
+							if !isValueOf(a.Arg, w, d+1) {
+								return false
 							}
 						}
-						// converted pointer: y.Convert(x.Type()).Interface().(T) with x = ValueOf(v:T)
-						if cv, isCv := core.Resolve(call.Call.Args[0]).(*ssa.Call); isCv && core.StdCallee(&cv.Call) == "reflect.(Value).Convert" {
-							if ty, isTy := core.Resolve(cv.Call.Args[1]).(*ssa.Call); isTy && core.StdCallee(&ty.Call) == "reflect.(Value).Type" {
-								if vo, isVO := core.Resolve(ty.Call.Args[0]).(*ssa.Call); isVO && core.StdCallee(&vo.Call) == "reflect.ValueOf" && types.Identical(core.Unwrap(vo.Call.Args[0]).Type(), x.AssertedType) {
-									ok = true
-								}
+						return true
+					}
+					return false
+				}
+				if call, isC := core.Resolve(x.X).(*ssa.Call); isC && core.StdCallee(&call.Call) == "reflect.(Value).Interface" {
+					if isValueOf(call.Call.Args[0], x.AssertedType, 0) {
+						ok = true
+					}
+					// converted pointer: y.Convert(x.Type()).Interface().(T) with x = ValueOf(v:T)
+					if cv, isCv := core.Resolve(call.Call.Args[0]).(*ssa.Call); isCv && core.StdCallee(&cv.Call) == "reflect.(Value).Convert" {
+						if ty, isTy := core.Resolve(cv.Call.Args[1]).(*ssa.Call); isTy && core.StdCallee(&ty.Call) == "reflect.(Value).Type" {
+							if isValueOf(ty.Call.Args[0], x.AssertedType, 0) {
+								ok = true
 							}
 						}
 					}
 				}
-				c.Check(ok, "R6", key, p.InstrPos(ins), "dominated by the matching comma-ok success / reflect round trip", "unchecked type assertion to "+x.AssertedType.String()+" is not dominated by a successful check of the same value: panics for other dynamic types")
+			}
+			c.Check(ok, "R6", key, p.InstrPos(ins), "dominated by the matching comma-ok success / reflect round trip", "unchecked type assertion to "+x.AssertedType.String()+" is not dominated by a successful check of the same value: panics for other dynamic types")
 			case *ssa.Call:
 				name := core.StdCallee(&x.Call)
 				if !strings.HasPrefix(name, "reflect.(Value).") && !strings.HasPrefix(name, "reflect.(Type).") && !(x.Call.IsInvoke() && strings.HasPrefix(name, "reflect.")) {
@@ -602,7 +607,7 @@ func runC01(c *core.Ctx) {
 					return // no precondition
 				}
 				key := fmt.Sprintf("%s/reflect:%s", core.FuncName(f), method)
-				ok, why := c01reflectGuard(f, x, method)
+				ok, why := c01reflectGuard(p, f, x, method)
 				c.Check(ok, "R6", key, p.InstrPos(ins), why, "reflect."+method+" at this site can panic: "+why)
 			}
 		})
@@ -610,7 +615,9 @@ func runC01(c *core.Ctx) {
 }
 
 // c01reflectGuard discharges the precondition of a reflect call through an explicit table.
-func c01reflectGuard(f *ssa.Function, call *ssa.Call, method string) (bool, string) {
+func c01reflectGuard(p *core.Prog, f *ssa.Function, call *ssa.Call, method string) (bool, string) {
+	// guards are looked up at the call and, for extracted helpers, at every call site of the helper
+	inCtx := func(pred func(*ssa.BasicBlock) bool) bool { return core.HoldsInCtx(p, call.Block(), pred) }
 	kindIsPtr := func(b *ssa.BasicBlock) bool {
 		for _, m := range core.EdgeCmps(b) {
 			if m.Op == token.EQL && core.IsIntConst(m.Y, 22) {
@@ -627,35 +634,40 @@ func c01reflectGuard(f *ssa.Function, call *ssa.Call, method string) (bool, stri
 		}
 		return false
 	}
-	notNilEdge := func(b *ssa.BasicBlock, what func(*ssa.Call) bool) bool {
-		for _, cnd := range core.EdgeFacts(b) {
-			n := core.Normalize(cnd)
-			if k, ok := n.V.(*ssa.Call); ok && !n.True && what(k) {
-				return true
+	notNilEdge := func(what func(*ssa.Call) bool) func(*ssa.BasicBlock) bool {
+		return func(b *ssa.BasicBlock) bool {
+			for _, cnd := range core.EdgeFacts(b) {
+				n := core.Normalize(cnd)
+				if k, ok := n.V.(*ssa.Call); ok && !n.True && what(k) {
+					return true
+				}
 			}
+			return false
 		}
-		return false
 	}
-	switch core.FuncName(f) + "/" + method {
+	root := core.HelperRoot(p, f)
+	switch core.FuncName(root) + "/" + method {
 	case "fpgo.IsNil/IsNil":
-		return kindIsPtr(call.Block()), "Value.IsNil needs a nillable kind: guarded by Kind(obj) == reflect.Ptr"
+		return inCtx(kindIsPtr), "Value.IsNil needs a nillable kind: guarded by Kind(obj) == reflect.Ptr"
 	case "fpgo.CloneTo/Elem", "fpgo.CloneTo/Set", "fpgo.CloneTo/Interface", "fpgo.CloneTo/Type", "fpgo.CloneTo/Convert":
 		// the source Maybe is present (IsNil() false) on this path
-		present := notNilEdge(call.Block(), func(k *ssa.Call) bool { return k.Call.IsInvoke() && k.Call.Method.Name() == "IsNil" })
+		present := inCtx(notNilEdge(func(k *ssa.Call) bool { return k.Call.IsInvoke() && k.Call.Method.Name() == "IsNil" }))
 		if !present {
 			return false, "not on the path where the source Maybe is present"
 		}
 		recv := core.Resolve(call.Call.Args[0])
-		// calls on ValueOf(dest).Elem(): need !IsNil(dest)
-		usesDest := false
+		// calls on ValueOf(dest).Elem(): need !IsNil(dest), dest being a parameter of the enclosing function
+		var dest *ssa.Parameter
 		var walk func(v ssa.Value, d int)
 		walk = func(v ssa.Value, d int) {
 			if d > 6 {
 				return
 			}
 			if k, ok := core.Resolve(v).(*ssa.Call); ok {
-				if core.StdCallee(&k.Call) == "reflect.ValueOf" && len(f.Params) > 1 && core.Unwrap(k.Call.Args[0]) == ssa.Value(f.Params[1]) {
-					usesDest = true
+				if core.StdCallee(&k.Call) == "reflect.ValueOf" {
+					if prm, isP := core.Resolve(core.Unwrap(k.Call.Args[0])).(*ssa.Parameter); isP {
+						dest = prm
+					}
 				}
 				for _, a := range k.Call.Args {
 					walk(a, d+1)
@@ -663,29 +675,121 @@ func c01reflectGuard(f *ssa.Function, call *ssa.Call, method string) (bool, stri
 			}
 		}
 		walk(recv, 0)
-		if usesDest {
-			okDest := notNilEdge(call.Block(), func(k *ssa.Call) bool {
+		if dest != nil {
+			okDest := notNilEdge(func(k *ssa.Call) bool {
 				g := core.Callee(&k.Call)
-				return g != nil && core.FuncName(g) == "fpgo.IsNil" && core.Unwrap(k.Call.Args[0]) == ssa.Value(f.Params[1])
-			})
+				return g != nil && core.FuncName(g) == "fpgo.IsNil" && core.Resolve(core.Unwrap(k.Call.Args[0])) == ssa.Value(dest)
+			})(call.Block())
 			return okDest, "writes through reflect.ValueOf(dest).Elem(): dest must be known non-nil (IsNil(dest) false)"
 		}
 		if method == "Elem" || method == "Set" || method == "Type" || method == "Convert" {
-			return kindIsPtr(call.Block()), "needs the pointer kind: guarded by x.Kind() == reflect.Ptr on a present (non-nil) value"
+			return inCtx(kindIsPtr), "needs the pointer kind: guarded by x.Kind() == reflect.Ptr on a present (non-nil) value"
 		}
 		return true, "value of a present Maybe is valid"
 	case "fpgo.someDef.ToPtr/Interface":
-		pres, _ := c01edge(call.Block(), f)
-		isPtr := false
-		for _, cnd := range core.EdgeFacts(call.Block()) {
-			n := core.Normalize(cnd)
-			if k, ok := n.V.(*ssa.Call); ok && n.True {
-				if g := core.Callee(&k.Call); g != nil && g.Name() == "IsPtr" {
-					isPtr = true
+		pres := inCtx(func(b *ssa.BasicBlock) bool { pr, _ := c01edge(b, b.Parent()); return pr })
+		isPtr := inCtx(func(b *ssa.BasicBlock) bool {
+			for _, cnd := range core.EdgeFacts(b) {
+				n := core.Normalize(cnd)
+				if k, ok := n.V.(*ssa.Call); ok && n.True {
+					if g := core.Callee(&k.Call); g != nil && g.Name() == "IsPtr" {
+						return true
+					}
 				}
 			}
-		}
+			return false
+		})
 		return pres && isPtr, "Indirect(ValueOf(ref)).Interface() needs a non-nil pointer: guarded by IsPresent() && IsPtr()"
 	}
 	return false, "reflect call with a precondition that has no entry in the discharge table"
+}
+
+// c01refConsumers returns the instructions of m that consume the wrapped value (someDef.ref) -
+// anything other than loading, boxing, copying it into a private local or merging it in a phi -
+// plus all dynamic calls (callback invocations). Returning it is judged by the absent-edge result check.
+func c01refConsumers(m *ssa.Function) []ssa.Instruction {
+	derived := map[ssa.Value]bool{}
+	var work []ssa.Value
+	add := func(v ssa.Value) {
+		if v != nil && !derived[v] {
+			derived[v] = true
+			work = append(work, v)
+		}
+	}
+	consumers := map[ssa.Instruction]bool{}
+	core.Instrs(m, func(ins ssa.Instruction) {
+		switch x := ins.(type) {
+		case *ssa.FieldAddr:
+			if core.FieldKey(x) == "someDef.ref" {
+				add(x)
+			}
+		case *ssa.Field:
+			if core.FieldKey(x) == "someDef.ref" {
+				add(x)
+			}
+		case *ssa.Call:
+			if core.Callee(&x.Call) == nil && !x.Call.IsInvoke() {
+				if _, isB := x.Call.Value.(*ssa.Builtin); !isB {
+					consumers[ins] = true
+				}
+			}
+		}
+	})
+	for len(work) > 0 {
+		v := work[len(work)-1]
+		work = work[:len(work)-1]
+		if v.Referrers() == nil {
+			continue
+		}
+		for _, r := range *v.Referrers() {
+			switch x := r.(type) {
+			case *ssa.DebugRef, *ssa.Return:
+			case *ssa.MakeInterface:
+				add(x)
+			case *ssa.ChangeType:
+				add(x)
+			case *ssa.ChangeInterface:
+				add(x)
+			case *ssa.Phi:
+				add(x)
+			case *ssa.UnOp:
+				if x.Op == token.MUL {
+					add(x) // load through the field address / of the local copy
+				} else {
+					consumers[r] = true
+				}
+			case *ssa.Store:
+				if a, isA := x.Addr.(*ssa.Alloc); isA && x.Val == v && !a.Heap {
+					add(a)
+				} else if a, isA := x.Addr.(*ssa.Alloc); isA && x.Val == v && c01localOnly(a) {
+					add(a)
+				} else if _, isCell := v.(*ssa.Alloc); isCell && x.Addr == v {
+					// another store into the local copy
+				} else {
+					consumers[r] = true
+				}
+			default:
+				consumers[r] = true
+			}
+		}
+	}
+	var out []ssa.Instruction
+	core.Instrs(m, func(ins ssa.Instruction) {
+		if consumers[ins] {
+			out = append(out, ins)
+		}
+	})
+	return out
+}
+
+// c01localOnly: a heap-allocated local (captured) cell that is only stored, loaded or captured.
+func c01localOnly(a *ssa.Alloc) bool {
+	for _, r := range *a.Referrers() {
+		switch r.(type) {
+		case *ssa.Store, *ssa.UnOp, *ssa.DebugRef, *ssa.MakeClosure:
+		default:
+			return false
+		}
+	}
+	return true
 }
